@@ -13,7 +13,9 @@ type C17 struct {
 	nt                bool
 }
 
-func init() { RegisterChecker("C17", func() Checker { return &C17{prefixPairQueried: map[string]bool{}} }) }
+func init() {
+	RegisterChecker("C17", func() Checker { return &C17{prefixPairQueried: map[string]bool{}} })
+}
 func (c *C17) ID() string { return "C17" }
 
 func sortedCopy(xs []string) []string {
